@@ -231,6 +231,34 @@ theorem term_dist (x : VarId) : ∀ (t : Term V), t.noFlat = true → (∀ v ∈
   | flatten id t _ => intro hf; simp [Term.noFlat] at hf
   | concat id t _ => intro hf; simp [Term.noFlat] at hf
 
+/-- `term_dist` under ANY binding that leaves the term's variable unbound: the outer bindings are
+    carried along unchanged and do not influence the values. -/
+theorem term_dist_frame (x : VarId) (β : Bnd V) (hβ : β.lookup x = none) :
+    ∀ (t : Term V), t.noFlat = true → (∀ v ∈ t.vars, v = x) → t.vars ≠ [] →
+    evalTerm W D t β = (D x).map fun o => ((x, o) :: β, termVal W (constAsg o) t) := by
+  intro t
+  induction t with
+  | var v =>
+    intro _ hv _
+    have : v = x := hv v (by simp [Term.vars])
+    subst this
+    simp [evalTerm, hβ, termVal, constAsg]
+  | lit c => intro _ _ hne; simp [Term.vars] at hne
+  | attr n t ih =>
+    intro hf hv hne
+    simp only [evalTerm, ih hf hv hne, List.map_map, termVal]
+    rfl
+  | index k t ih =>
+    intro hf hv hne
+    simp only [evalTerm, ih hf hv hne, List.map_map, termVal]
+    rfl
+  | call m args t ih =>
+    intro hf hv hne
+    simp only [evalTerm, ih hf hv hne, List.map_map, termVal]
+    rfl
+  | flatten id t _ => intro hf; simp [Term.noFlat] at hf
+  | concat id t _ => intro hf; simp [Term.noFlat] at hf
+
 end
 
 end Eql
